@@ -8,3 +8,4 @@ import IsoVerif.Lemmas.PicoStage1
 import IsoVerif.Lemmas.PicoRerun
 import IsoVerif.Lemmas.PicoSem
 import IsoVerif.Lemmas.PicoStage2
+import IsoVerif.Lemmas.PicoInc8
